@@ -50,7 +50,7 @@ CHECKS = [
 
 CHECKS += [
     {"property_id": "C07", "level": "exploration", "design_ref": "DESIGN.md §4.7",
-     "technique": "deterministic simulation turned on the system under test: the same stochastic model programs executed in 8 child interpreters under injected process-level nondeterminism (PYTHONHASHSEED, id counters, heap noise, gc, thread schedule seed, virtual-time speed, pause pattern); digest equality",
+     "technique": "deterministic simulation turned on the system under test: the same stochastic model programs executed in 10 child interpreters under injected process-level nondeterminism (PYTHONHASHSEED, id counters, heap noise, gc, thread schedule seed, virtual-time speed, pause pattern); digest equality",
      "text": "Seeded batches of stochastic model programs with pub/sub fan-out (listeners with identity hash that draw from shared streams and schedule events) are run in separate interpreter processes, each with a different perturbation of everything a run must not depend on; the digest of executed events, deliveries, draws, all statistics getters and the final state must be identical in all of them, and the simulator notification stream identical among equal pause patterns.",
      "note": "the violation itself is nondeterminism, so a replay file re-runs the same children and may need more than one attempt; float clock"},
     {"property_id": "C09", "level": "exploration", "design_ref": "DESIGN.md §4.9",
